@@ -339,7 +339,7 @@ def build_cases(tier, seed):
     return cases
 
 
-FLOORS = {"quick": {"c15_ticks_checked": 5000, "c15_compositions": 100, "c15_boundaries_compared": 400, "c15_batch_runs": 50, "c15_step_beyond_end_checks": 50, "c15_reinjections": 150, "c15_deferred_flush_calls": 200}, "thorough": {"c15_ticks_checked": 100000, "c15_compositions": 1500, "c15_boundaries_compared": 6000, "c15_batch_runs": 500, "c15_step_beyond_end_checks": 500, "c15_reinjections": 2000, "c15_deferred_flush_calls": 3000}}
+FLOORS = {"quick": {"c15_ticks_checked": 5000, "c15_compositions": 100, "c15_boundaries_compared": 400, "c15_batch_runs": 50, "c15_step_beyond_end_checks": 50, "c15_reinjections": 150, "c15_deferred_flush_calls": 200, "c15_load_paths_compared_without_fleet_level_generators": 3, "c15_cosim_charge_rows": 800}, "thorough": {"c15_ticks_checked": 100000, "c15_compositions": 1500, "c15_boundaries_compared": 6000, "c15_batch_runs": 500, "c15_step_beyond_end_checks": 500, "c15_reinjections": 2000, "c15_deferred_flush_calls": 3000, "c15_load_paths_compared_without_fleet_level_generators": 12, "c15_cosim_charge_rows": 3200}}
 
 
 def main(tier, seed):
